@@ -239,13 +239,18 @@ PROPS["C01"] = {
     "trusted": CONV_TRUSTED + ["the Go compiler (go build of every emitted package in a scratch module that replaces genqlient with /repo and stubs the bound types) is the oracle for 'type-checks'; Gen/Typing.v models only the typing condition of the (un)marshal blocks, transcribed from the templates; gofmt/goimports are trusted to preserve typing"],
     "assumptions": ["supported fragment as generated by gen.DecorateSafe/RandomCfgSafe: options only where documented as valid, the same options on every occurrence of a repeated field, field keys distinct from fragment names under export casing"],
     "level_text": "Theorems: the (un)marshal blocks emitted for fields needing special handling type-check iff the field's Go type is `[]`^SliceDepth around `[*]Unwrap` (both templates, same condition); for every GraphQL type of any list depth and every pointer / optional / use_struct_references setting the type convertType builds makes them type-check exactly when no generic wrapper is involved, which happens exactly for optional: generic on a nullable type without an applicable pointer -- so 'always compiles' is refuted there (open finding) and proved elsewhere for the blocks. Whole-file compilation and acceptance are decided by compiling every emitted package of random supported programs with the real Go compiler; every declaration is compared with the converter model in-kernel.",
-    "level_note": "partial: closedness / duplicate-identifier / interface-satisfaction parts of well-formedness are decided by the Go compiler on generated programs (oracle), not by theorems; seven open findings (listed in KNOWN_FINDINGS.json).",
+    "level_note": "partial: of closedness, theorems cover the converter's interfaces (every type a converter function returns, every field type of a returned field list, and the input struct and response type of every operation name a declaration of the final type map; no declaration is ever removed; every struct field and interface getter of every declaration of the final type map mentions only declared types, every implementation an interface declaration lists is declared: theorems for the whole converter model); duplicate identifiers and interface satisfaction are decided by the Go compiler on generated programs (oracle), not by theorems; seven open findings (listed in KNOWN_FINDINGS.json).",
     "theorem_status": {"C01_unmarshal_block_typed_iff": "proved", "C01_marshal_block_typed_iff": "proved", "C01_blocks_typed": "proved",
                        "C01_generic_wrapper_condition": "proved", "C01_blocks_generic_refuted": "refuted full statement for optional: generic (witness Option[I]) - open finding F-C01-1",
                        "C01_import_aliases_are_distinct": "proved (every sequence of references: distinct paths get distinct aliases, all marked used)",
                        "C01_import_allocation_is_total": "proved", "C01_alias_search_terminates": "proved (pigeonhole over pkg, pkg2, pkg3, ...)",
                        "C01_same_path_same_alias": "proved", "C01_alias_is_name_shaped": "proved",
-                       "C01_alias_can_be_a_keyword_refuted": "refuted: makeIdentifier can return a Go keyword (last path segment `type`, `go`, `range`, ...): exact characterisation proved; not exhibited as a failing program (a package whose directory is named like a keyword), recorded as an observation in DESIGN.md"},
+                       "C01_alias_can_be_a_keyword_refuted": "refuted: makeIdentifier can return a Go keyword (last path segment `type`, `go`, `range`, ...): exact characterisation proved; not exhibited as a failing program (a package whose directory is named like a keyword), recorded as an observation in DESIGN.md",
+                       "C01_returned_types_are_declared": "proved", "C01_operation_types_are_declared": "proved",
+                       "C01_converter_keeps_the_type_map_closed": "proved", "C01_declarations_mention_only_declared_types": "proved",
+                       "C01_closedness_witness": "proved",
+                       "C01_converter_registers_every_listed_implementation": "proved", "C01_interface_implementations_are_declared": "proved",
+                       "C01_implementations_witness": "proved"},
 }
 
 RT_TRUSTED = CONV_TRUSTED + [
